@@ -113,8 +113,10 @@ CLAIMED.update({
         'design': '§7 C05',
     },
     'C07': {
-        'text': ('Lean 4: writer and reader symbol tables are mutually inverse on orders 0-4, single bonds are silent, ring-'
-                 'marker allocation never returns an open marker, one-node graphs; round trips of branch / ring graphs by '
+        'text': ('Lean 4: end-to-end round trip for every path graph (any length, all names, all orders 0-4): the writer model '
+                 'produces exactly the chain string and the reader model reads it back to the same graph (C07_path_roundtrip = '
+                 'writeGraph_path + C04_read_chain); writer and reader symbol tables are mutually inverse on orders 0-4, single '
+                 'bonds are silent, ring-marker allocation never returns an open marker; round trips of branch / ring graphs by '
                  'kernel evaluation of both models. General round trip (all connected graphs x spanning trees) validated by '
                  'running both models and both implementations on random graphs and, thorough, on all connected graphs <= 6 '
                  'nodes (partial).'),
